@@ -1,4 +1,5 @@
 import BbRe.Model.Replay41
+import BbRe.Model.Replay40
 import BbRe.Drivers.Util
 /-! Line-protocol driver of the NFSv4 replay models (C19).
 
@@ -17,6 +18,7 @@ open BbRe.Drivers
 
 structure St where
   s41 : BbRe.Replay41.State := {}
+  s40 : BbRe.Replay40.State := {}
 
 namespace R41
 open BbRe.Replay41
@@ -82,9 +84,79 @@ def step (s : State) (ws : List String) : State × String :=
 
 end R41
 
+/-! NFSv4.0 ops (`40 ...`), kinds: 0 OPEN, 1 OPEN_CONFIRM, 2 OPEN_DOWNGRADE, 3 CLOSE, 4 LOCK, 5 LOCKU;
+a response is `<kind>/<status>/<sid>/<body>` with sid = `<other>.<seqid>` or a dash:
+* `40 reset`                                                             -> `ok`
+* `40 should <status>`                                                   -> `1` | `0` (transactionShouldComplete)
+* `40 arrive <call> <kind> <owner> <other> <argSeq> <seq> <cid>`         -> `reply c:<resp>` | `reply e:<code>` | `started <owner>` | `waiting <owner>`
+* `40 finish <owner> <kind> <status> <other|-> <seqid> <body> <lockOwner> <lockSeq>` -> `done <call> woken <c,...>` | `bad-op`
+* `40 locktx <kind> <other> <argSeq> <seq> <xkind> <xstatus> <xother|-> <xseqid> <xbody>` -> `reply ... exec=<0|1>`
+-/
+namespace R40
+open BbRe.Replay40
+
+def kindOfNat : Nat → Option Kind
+  | 0 => some .open_ | 1 => some .openConfirm | 2 => some .openDowngrade | 3 => some .close
+  | 4 => some .lock | 5 => some .locku | _ => none
+def kindToNat : Kind → Nat
+  | .open_ => 0 | .openConfirm => 1 | .openDowngrade => 2 | .close => 3 | .lock => 4 | .locku => 5
+
+def showResp (r : Resp) : String :=
+  let sid := match r.sid with | some (o, q) => s!"{o}.{q}" | none => "-"
+  s!"{kindToNat r.kind}/{r.status}/{sid}/{r.body}"
+
+def showReply : Reply → String
+  | .cached r => "c:" ++ showResp r
+  | .err c => s!"e:{c}"
+
+def parseResp (k st o q b : String) : Option Resp := do
+  let k ← kindOfNat (← k.toNat?)
+  let st ← st.toNat?
+  let q ← q.toNat?
+  let b ← b.toNat?
+  let sid ← (if o == "-" then some none else (o.toNat?).map (fun o => some (o, q)))
+  some ⟨k, st, sid, b⟩
+
+def step (s : State) (ws : List String) : State × String :=
+  match ws with
+  | ["reset"] => ({}, "ok")
+  | ["should", st] =>
+    match st.toNat? with
+    | some st => (s, if shouldComplete st then "1" else "0")
+    | none => (s, "bad-op")
+  | ["arrive", call, k, owner, other, argSeq, seq, cid] =>
+    match call.toNat?, k.toNat?.bind kindOfNat, owner.toNat?, other.toNat?, argSeq.toNat?, seq.toNat?, cid.toNat? with
+    | some call, some k, some owner, some other, some argSeq, some seq, some cid =>
+      let r : Req := ⟨k, owner, other, argSeq, seq, cid⟩
+      let res := arrive s call r
+      let o := match resolve s r with | some o => toString o | none => "-"
+      (res.1, match res.2 with
+        | .reply rep => "reply " ++ showReply rep
+        | .started => "started " ++ o
+        | .waiting => "waiting " ++ o)
+    | _, _, _, _, _, _, _ => (s, "bad-op")
+  | ["finish", owner, k, st, o, q, b, lk, lq] =>
+    match owner.toNat?, parseResp k st o q b, lk.toNat?, lq.toNat? with
+    | some owner, some resp, some lk, some lq =>
+      let res := finish s owner ⟨resp, lk, lq⟩
+      match res.2.1 with
+      | some (call, _) => (res.1, s!"done {call} woken {",".intercalate (res.2.2.map toString)}")
+      | none => (s, "bad-op")
+    | _, _, _, _ => (s, "bad-op")
+  | ["locktx", k, other, argSeq, seq, xk, xst, xo, xq, xb] =>
+    match k.toNat?.bind kindOfNat, other.toNat?, argSeq.toNat?, seq.toNat?, parseResp xk xst xo xq xb with
+    | some k, some other, some argSeq, some seq, some x =>
+      let res := lockTx s ⟨k, other, argSeq, seq⟩ x
+      (res.1, s!"reply {showReply res.2.1} exec={if res.2.2 then 1 else 0}")
+    | _, _, _, _, _ => (s, "bad-op")
+  | _ => (s, "bad-op")
+
+end R40
+
 def step (st : St) (ws : List String) : St × String :=
   match ws with
   | "41" :: rest => let r := R41.step st.s41 rest; ({ st with s41 := r.1 }, r.2)
+  | "40" :: rest => let r := R40.step st.s40 rest; ({ st with s40 := r.1 }, r.2)
   | ["reset"] => ({}, "ok")
   | _ => (st, "bad-op")
 
